@@ -622,6 +622,10 @@ class Evaluator:
                 return T("const", T("bytes", c["bytes"]))
             if "fn" in c:
                 return T("const", T("fn", c["fn"]))
+            if c.get("disp", "").endswith("]") and "::promoted[" in c.get("disp", ""):
+                r = self._promoted(c["disp"])
+                if r is not None:
+                    return r
             if "bits" in c:
                 ty = c["ty"]
                 bits = int(c["bits"])
@@ -699,6 +703,24 @@ class Evaluator:
                 return T("tuple", ops)
             return T("array", ops)
         return T("rv?", rv.get("dbg", "")[:40])
+
+    def _promoted(self, path):
+        """value of a promoted constant: the return term of its tiny body"""
+        facts = self.body.facts
+        if facts is None or path not in facts.bodies:
+            return None
+        key = ("promoted", id(facts), path)
+        if key not in _CLOSURE_BODIES:
+            pb = _closure_body(facts, path)
+            val = None
+            try:
+                ps = [p for p in Walker(pb, max_paths=20).walk(0) if p.outcome[0] == "return"]
+                if len(ps) == 1 and not any(e.kind in ("guard", "call") and not (e.kind == "call" and method_name(e.a) in ("deref",)) for e in ps[0].events):
+                    val = ps[0].outcome[1]
+            except TooManyPaths:
+                val = None
+            _CLOSURE_BODIES[key] = val
+        return _CLOSURE_BODIES[key]
 
     def _any_as_membership(self, it, clos):
         """xs.iter().any(|x| x == k)  ==  k in xs"""
